@@ -7,6 +7,7 @@ import (
 	"fmt"
 	"html"
 	"io"
+	"strconv"
 	"strings"
 	"unicode/utf8"
 )
@@ -61,8 +62,11 @@ func lexHTML(s string) []interface{} {
 			i++
 			continue
 		}
-		name := s[j:k]
+		name := strings.ToLower(s[j:k]) // tag names are case-insensitive
 		if closing {
+			for k < len(s) && s[k] == ' ' {
+				k++ // "</td >" is a valid end tag
+			}
 			if k < len(s) && s[k] == '>' {
 				toks = append(toks, []interface{}{"close", name})
 				inCell = false
@@ -98,13 +102,14 @@ func lexHTML(s string) []interface{} {
 			for k < len(s) && isNameByte(s[k]) {
 				k++
 			}
-			if k == a || k+1 >= len(s) || s[k] != '=' || s[k+1] != '"' {
+			if k == a || k+1 >= len(s) || s[k] != '=' || (s[k+1] != '"' && s[k+1] != '\'') {
 				bad = "attribute without quoted value"
 				break
 			}
-			an := s[a:k]
+			an := strings.ToLower(s[a:k])
+			quote := s[k+1]
 			k += 2
-			e := strings.IndexByte(s[k:], '"')
+			e := strings.IndexByte(s[k:], quote)
 			if e < 0 {
 				bad = "unterminated attribute value"
 				break
@@ -202,11 +207,38 @@ func canonJSON(raw []byte) string {
 	if err := dec.Decode(&v); err != nil {
 		return "!" + string(raw)
 	}
-	b, err := json.Marshal(v)
+	b, err := json.Marshal(normNumbers(v))
 	if err != nil {
 		return "!" + string(raw)
 	}
 	return string(b)
+}
+
+// normNumbers rewrites every number to one spelling per value (3.250 = 3.25, 1E21 = 1e+21), keeping
+// integers that do not fit a float64 exactly as they are written.
+func normNumbers(v interface{}) interface{} {
+	switch x := v.(type) {
+	case json.Number:
+		s := string(x)
+		if !strings.ContainsAny(s, ".eE") {
+			return x
+		}
+		if f, err := strconv.ParseFloat(s, 64); err == nil {
+			return json.Number(strconv.FormatFloat(f, 'g', -1, 64))
+		}
+		return x
+	case map[string]interface{}:
+		for k, e := range x {
+			x[k] = normNumbers(e)
+		}
+		return x
+	case []interface{}:
+		for i, e := range x {
+			x[i] = normNumbers(e)
+		}
+		return x
+	}
+	return v
 }
 
 func lexJSON(s string) M {
@@ -306,22 +338,29 @@ func lexMarkdown(s string) M {
 		if s[i] != '\n' {
 			continue
 		}
-		line := s[start:i]
+		line := strings.TrimSuffix(s[start:i], "\r") // CRLF line ends are as good as LF
 		start = i + 1
 		parts := splitPipes(line)
 		cells := []interface{}{}
 		for _, p := range parts[1:max(1, len(parts)-1)] {
 			tr := strings.Trim(p, " ")
+			// GFM: inside a cell "\|" is an escaped pipe and reads as "|"
+			unesc := strings.ReplaceAll(tr, "\\|", "|")
 			ndash := strings.Count(p, "-")
 			delimOnly := b2i(strings.Trim(p, " -:") == "" && strings.Trim(strings.Trim(tr, ":"), "-") == "")
-			cells = append(cells, []interface{}{p, html.UnescapeString(tr), b2i(hasRawMarkup(p)),
+			cells = append(cells, []interface{}{p, html.UnescapeString(unesc), b2i(hasRawMarkup(p)),
 				ndash, b2i(strings.HasPrefix(tr, ":")), b2i(strings.HasSuffix(tr, ":") && len(tr) > 1), delimOnly})
 		}
 		post := ""
 		if len(parts) > 1 {
 			post = parts[len(parts)-1]
 		}
-		lines = append(lines, M{"pre": parts[0], "post": post, "npipes": len(parts) - 1, "cells": cells})
+		// up to three spaces of indentation do not change what the line is
+		pre := parts[0]
+		if len(pre) <= 3 && strings.Trim(pre, " ") == "" {
+			pre = ""
+		}
+		lines = append(lines, M{"pre": pre, "post": strings.Trim(post, " "), "npipes": len(parts) - 1, "cells": cells})
 	}
 	return M{"lines": lines, "rest": s[start:]}
 }
